@@ -11,7 +11,7 @@ if [ "${1:-}" = replay ]; then
   exec "$B/$W" replay "$2" "$3"
 fi
 PROP=$1; TIER=${2:-${VERIF_TIER:-quick}}
-case "$PROP" in C09|C13) export VERIF_NEED_RACE=1;; esac
+case "$PROP" in C09|C13|XSRND) export VERIF_NEED_RACE=1;; esac
 B=$("$VERIF/scripts/build.sh") || { echo "ENGINE-ERROR property=$PROP build failed"; exit 2; }
 export VERIF_BUILD_DIR="$B"
 W=worker
